@@ -137,6 +137,8 @@ func (d Date) MarshalUT0311L0x() ([]byte, error) {
 		return []byte{}, fmt.Errorf("error encoding date %v to BCD: [%v]", d, err)
 	} else if encoded == nil {
 		return []byte{}, fmt.Errorf("unknown error encoding date %v to BCD", d)
+	} else if len(*encoded) != 4 {
+		return []byte{}, fmt.Errorf("date %v cannot be encoded as 4 BCD bytes", d)
 	}
 
 	return *encoded, nil
